@@ -105,6 +105,47 @@ TOKEN_IMPLS = ["<pasfmt_core::lang::Token as pasfmt_core::lang::TokenData>::get_
                "<pasfmt_core::lang::RawToken as pasfmt_core::lang::TokenData>::get_content", "<pasfmt_core::lang::RawToken as pasfmt_core::lang::TokenData>::get_leading_whitespace"]
 
 
+def width_measures_agree(prog, rep, R):
+    """Every place that measures token text for the width comparison uses the same measure: the first fill of the per-token length
+    cache, its refresh after the multi-line strings were rewritten, and the length of a multi-line token's last line.  If they
+    disagree (bytes here, characters there) a line is wrapped by one measure in the run that rewrites a string and by the other in
+    the run over the result: the output is not a fixpoint, and the same text wraps differently depending on what else was rewritten."""
+    of = prog.body(OLF_FMT)
+    TL = OLF + "TokenLength"
+    if not rep.check(of is not None, R, "anchor:OLF::format", "OptimisingLineFormatter::format not found"):
+        return
+    sites = {}
+
+    def measure_of(text):
+        m = re.match(r"^(?:\w+:)?([\w:]+)\(get_content\(", text)
+        return m.group(1).split("::")[-1] if m else None
+    for b2 in [of] + list(prog.closures_of(of.npath)):
+        for bb, i, st in b2.stmts():
+            if st["k"] == "assign" and st["rv"]["k"] == "aggregate" and norm(st["rv"].get("adt", "")) == TL and "content" in st["rv"].get("fields", []):
+                v = canon(b2, st["rv"]["ops"][st["rv"]["fields"].index("content")])
+                sites["first fill of the length cache"] = measure_of(v) or v[:60]
+    for a in prog.field_accesses(TL, "content", within={of.npath}):
+        if a[3].startswith("write") and a[4]["rv"]["k"] in ("cast", "use"):
+            v = canon(of, a[4]["rv"]["op"])
+            sites["refresh after the string rewrite"] = measure_of(v) or v[:60]
+    g = prog.body(OLF + "InternalOptimisingLineFormatter::get_multiline_token_last_line_length")
+    if g is not None:
+        fam = [g] + [x for x in prog.bodies.values() if x.npath.startswith(g.npath + "::")]
+        names = set()
+        for x in fam:
+            for c in x.calls():
+                nm = (c.callee or "").split("::")[-1]
+                cargs = " ".join(str(t) for t in (c.t.get("callee_args") or []))
+                # what turns a line (&str) into a number
+                dty = str(c.t.get("dst_ty", ""))
+                if dty in ("usize", "u32", "u64", "u16") and c.args and "str" in (x.local_ty(c.args[0]["place"]["l"]) if c.args[0]["k"] in ("copy", "move") else ""):
+                    names.add(nm)
+        sites["last line of a multi-line token"] = "+".join(sorted(names)) or "?"
+    vals = set(sites.values())
+    rep.check(len(sites) == 3 and len(vals) == 1, R, "width-measures-agree",
+              "the places that measure token text for the width comparison do not use the same measure: %s" % sites, where="%s:%d" % (of.file, of.line), instance={"sites": sites})
+
+
 def consolidator_commits_atomically(prog, rep, R):
     """The conditional-directive consolidator merges the directives written inside a statement into the statement's line and then voids
     the directives' own lines (the tokens are laid out as part of the statement).  A directive whose line is voided although the merge
